@@ -40,6 +40,10 @@ structure Arith where
   fadd : FltTy → Nat → Nat → Nat
   flt  : FltTy → Nat → Nat → Bool
   feq  : FltTy → Nat → Nat → Bool
+  /-- environment of a run rather than arithmetic: replies show every non-zero ExpiredAt
+      (false: only positive ones — `treasureToKeyValuePair` before the repair).  Spec and Model
+      read it alike; what it should be is C30's subject. -/
+  expNe0 : Bool := false
 
 /-- `f == 0` on the bit pattern (+0 and −0). -/
 def fltIsZero (t : FltTy) (bits : Nat) : Bool :=
